@@ -7,7 +7,7 @@
 From Coq Require Import ZArith List Bool.
 From RecordUpdate Require Import RecordSet.
 From Common Require Import Res.
-From Core Require Import World Model Step Reach Rel_Frame Proofs_C03 Proofs_C03b Proofs_C03c Proofs_C03d Proofs_C03e Proofs_C03f Proofs_C03g.
+From Core Require Import World Model Step Reach Rel_Frame Proofs_C03 Proofs_C03b Proofs_C03c Proofs_C03d Proofs_C03e Proofs_C03f Proofs_C03g Proofs_C03h.
 Import ListNotations RecordSetNotations.
 Open Scope Z_scope.
 
@@ -366,3 +366,28 @@ Example C03_consume_last_example :
   /\ current w' = None /\ pstate w' = Stopped /\ map tlid (World.tl w') = [1; 2].
 Proof. vm_compute. repeat split; reflexivity. Qed.
 Print Assumptions C03_consume_last_example.
+
+(* random, walked with next(): from a state settled on c with the shuffle order `order` ahead
+   (all playable), |order| next() calls - each followed by the delivery of its four
+   notifications - start exactly the entries of the order, one after the other, each once
+   (`starts` = the started entries, newest first), leave the order empty and the tracklist
+   untouched. *)
+Theorem C03_random_pass_by_next :
+  forall shuf f order c w,
+  World.tl w <> [] -> shuffled w = order ->
+  settled_on w c -> pstate w = Playing -> consume w = false -> random w = true -> script w = [] ->
+  (forall y, In y order -> kind_of w (trk y) = Playable) ->
+  let w' := run_world shuf (S f) w (nblocks (length order)) in
+  settled_on w' (last order c) /\ pstate w' = Playing /\ World.tl w' = World.tl w /\ shuffled w' = []
+  /\ starts (events w') = rev order ++ starts (events w).
+Proof. exact random_pass_next. Qed.
+Print Assumptions C03_random_pass_by_next.
+
+Example C03_random_pass_by_next_example :
+  let w := run_world shuf_concrete 50 (init_world 50 [Playable; Playable; Playable; Playable] [Some 900; Some 900; Some 900; Some 900] [] None None)
+             [Add [0; 1; 2; 3] None; SetMode 1 true; Play None; Deliver; Deliver; Deliver; Deliver] in
+  let w' := run_world shuf_concrete 50 w (nblocks 3) in
+  map tlid (shuffled w) = [2; 3; 4] /\ option_map tlid (current w) = Some 1 /\ pstate w = Playing /\ queue w = []
+  /\ map tlid (starts (events w')) = [4; 3; 2; 1] /\ shuffled w' = [] /\ option_map tlid (current w') = Some 4.
+Proof. vm_compute. repeat split; reflexivity. Qed.
+Print Assumptions C03_random_pass_by_next_example.
